@@ -13,6 +13,7 @@
 ##############################################################################
 """Schema loader utility."""
 
+import http.client
 import os.path
 import re
 import sys
@@ -215,9 +216,10 @@ class BaseLoader(ABC):
                 self._raise_open_error(url, e.reason)  # pragma: no cover
             except OSError as e:
                 self._raise_open_error(url, str(e))
-            except ValueError as e:
+            except (ValueError, http.client.HTTPException) as e:
                 # urllib reports a malformed URL ("http://[::1", "data:x")
-                # this way
+                # with ValueError, http.client a port that is not a number
+                # or a blank in the host name with InvalidURL
                 self._raise_open_error(url, str(e))
 
             try:
